@@ -38,6 +38,10 @@ def configs(tier, seed):
                         continue
                     for ps in shapes:
                         out.append(dict(h="table", op=lt, key=f"table/{lt}/grid={grid}/n={n}/{ia}{npts}/prm={ps}", lt=lt, grid=grid, n=n, inflow_at=ia, npts=npts, ps=ps))
+                    if grid == "uneven" and npts in (1, 3) and ia == "middle":
+                        # the same table after another model of the same class was evaluated in this process
+                        # (other parameters, another grid with the same end points and length): no state may leak
+                        out.append(dict(h="table", op=lt, key=f"table/{lt}/grid={grid}/n={n}/{ia}{npts}/prm=rt/after_other_model", lt=lt, grid=grid, n=n, inflow_at=ia, npts=npts, ps="rt", after_other=True))
     for grid in dsm.GRIDS:
         for n in ns + ([4] if tier == "quick" else [5]):
             out.append(dict(h="pdf", op="pdf", key=f"pdf/grid={grid}/n={n}", grid=grid, n=n, lt="Any"))
@@ -131,6 +135,18 @@ def run(cfg, w):
     if h == "table":
         n, lt = cfg["n"], cfg["lt"]
         y, dt, b = dsm.make_grid(w, n, cfg["grid"])
+        if cfg.get("after_other"):
+            d0 = dsm.make_dims(y, {"r": 2})
+            kw0 = {}
+            for name in REAL[lt]:
+                kw0[name] = w.real("other_" + name, default=DEF[name] * 1.7)
+                w.assume(w.gt(kw0[name], 0))
+            m0 = getattr(lm, lt)(dims=d0, inflow_at=cfg["inflow_at"], n_pts_per_interval=cfg["npts"], **kw0)
+            m0.sf, m0.pdf
+            y = [y[0]] + [w.real(f"z{i}", default=float(2000 + dsm._UNEVEN[i]) + 0.5) for i in range(1, n - 1)] + [y[-1]]
+            for i in range(n - 1):
+                w.assume(w.gt(y[i + 1] - y[i], 0))
+            dt, b = dsm.oracle_bounds(y)
         dims = dsm.make_dims(y, {"r": 2})
         kw, look = _params(w, cfg, dims, n)
         model = getattr(lm, lt)(dims=dims, inflow_at=cfg["inflow_at"], n_pts_per_interval=cfg["npts"], **kw)
